@@ -43,9 +43,16 @@ public:
     bool hasPendingEvents() override { return false; }
     void registerSocketNotifier(QSocketNotifier *) override {}
     void unregisterSocketNotifier(QSocketNotifier *) override {}
-    void registerTimer(int timerId, int interval, Qt::TimerType, QObject *object) override
+    void registerTimer(int timerId, int interval, Qt::TimerType type, QObject *object) override
     {
-        timers.push_back({timerId, object, interval, g_now + interval, ++seq, g_node});
+        int64_t deadline = g_now + interval;
+        if (type == Qt::VeryCoarseTimer) {
+            // as QTimerInfoList::registerTimer: the interval is rounded to whole seconds and the timer fires on a
+            // whole second of the clock (the library's timers are Qt::CoarseTimer, whose <= 5 % slack is not modelled)
+            int64_t secs = ((interval / 500) + 1) >> 1;
+            deadline = (g_now / 1000 + secs + (g_now % 1000 > 500 ? 1 : 0)) * 1000;
+        }
+        timers.push_back({timerId, object, interval, deadline, ++seq, g_node});
     }
     bool unregisterTimer(int timerId) override
     {
